@@ -165,6 +165,15 @@ func cmdPerms(args []string) int {
 	// ... and the same alternation written with its own anchors: ^Wallet1|Wallet2$
 	directed2 := &permConfig{Clients: []string{"client1"}, Entries: map[string][]permEntry{"client1": {
 		{W: &Pat{Top: []*rnode{anchored("Wallet1", true, false), anchored("Wallet2", false, true)}}, A: &Pat{Empty: true}, Ops: []string{"All"}}}}}
+	// ... and escape classes whose capital form is the complement of the small one
+	seqOf := func(ns ...*rnode) *rnode { return &rnode{kind: "seq", kids: ns} }
+	directed3 := &permConfig{Clients: []string{"client1"}, Entries: map[string][]permEntry{"client1": {
+		{W: &Pat{Top: []*rnode{litSeq("Wallet1")}}, A: &Pat{Top: []*rnode{seqOf(litSeq("Account "), &rnode{kind: "plus", kids: []*rnode{escClass(1)}})}}, Ops: []string{"All"}},
+		{W: &Pat{Top: []*rnode{seqOf(litSeq("Wallet"), escClass(3))}}, A: &Pat{Empty: true}, Ops: []string{"None"}},
+		{W: &Pat{Top: []*rnode{litSeq("Wallet2")}}, A: &Pat{Top: []*rnode{seqOf(&rnode{kind: "plus", kids: []*rnode{escClass(5)}}, escClass(4), escClass(0))}}, Ops: []string{"Sign"}},
+	}}}
+	directed3Paths := []string{"Wallet1/Account 1", "Wallet1/Account x", "Wallet1/Account 12", "Wallet1/Account xy", "Wallet2/Account 1", "Wallet2/Account x",
+		"Wallet /Account 1", "Wallet_/Account 1", "Wallet2/Account  1", "Wallet2/Acc 7"}
 	for ci := 0; ci < nCfg; ci++ {
 		pc := genPermConfig(rng, wg, ag)
 		if ci == 0 {
@@ -172,6 +181,9 @@ func cmdPerms(args []string) int {
 		}
 		if ci == 1 {
 			pc = directed2
+		}
+		if ci == 2 {
+			pc = directed3
 		}
 		svc, err := staticchecker.New(ctx, staticchecker.WithPermissions(pc.toDirk()))
 		if err != nil {
@@ -205,6 +217,9 @@ func cmdPerms(args []string) int {
 				a = []string{"backup/" + a, a + "/1", "x/Account 0"}[rng.Intn(3)]
 			}
 			path := w + "/" + a
+			if pc == directed3 && k < 3*len(directed3Paths) {
+				path = directed3Paths[k%len(directed3Paths)]
+			}
 			switch rng.Intn(30) {
 			case 0:
 				path = w
